@@ -20,6 +20,8 @@ pub struct Segment {
     /// sweep segments only: execute cells with index % stride == offset (1 = all)
     pub stride: u64,
     pub offset: u64,
+    /// skip the cells over 33-element arrays (quick tier)
+    pub light: bool,
 }
 
 fn sim_dir() -> PathBuf {
@@ -67,8 +69,9 @@ pub fn miri_multi(prop: &str, seed: u64, segs: &[String]) -> i32 {
         let sweep = parts.get(3) == Some(&"sweep");
         let stride: u64 = parts.get(4).and_then(|x| x.parse().ok()).unwrap_or(1);
         let offset: u64 = parts.get(5).and_then(|x| x.parse().ok()).unwrap_or(0);
+        let light = parts.get(6) == Some(&"light");
         println!("SEG {world} {}", if sweep { "sweep" } else { "batch" });
-        let code = with_world!(world, W => crate::runner::miri_batch::<W>(prop, seed, from, to, sweep, stride, offset));
+        let code = with_world!(world, W => crate::runner::miri_batch::<W>(prop, seed, from, to, sweep, stride, offset, light));
         if code != 0 {
             return code;
         }
@@ -174,13 +177,13 @@ pub fn run_miri_tier(prop: &str, seed: u64, segments: Vec<Segment>, jobs: usize)
         let mut a = s.from;
         while a < s.to {
             let b = (a + per).min(s.to);
-            pieces.push(Segment { world: s.world, from: a, to: b, sweep: s.sweep, stride: s.stride, offset: s.offset });
+            pieces.push(Segment { world: s.world, from: a, to: b, sweep: s.sweep, stride: s.stride, offset: s.offset, light: s.light });
             a = b;
         }
     }
     let mut per_job: Vec<Vec<String>> = vec![Vec::new(); jobs];
     for (i, p) in pieces.iter().enumerate() {
-        per_job[i % jobs].push(format!("{}:{}:{}:{}:{}:{}", p.world, p.from, p.to, if p.sweep { "sweep" } else { "batch" }, p.stride, p.offset));
+        per_job[i % jobs].push(format!("{}:{}:{}:{}:{}:{}:{}", p.world, p.from, p.to, if p.sweep { "sweep" } else { "batch" }, p.stride, p.offset, if p.light { "light" } else { "all" }));
     }
     let mut children = Vec::new();
     for segs in per_job.iter().filter(|s| !s.is_empty()) {
@@ -243,7 +246,7 @@ pub fn run_miri_tier(prop: &str, seed: u64, segments: Vec<Segment>, jobs: usize)
             "runs_under_miri": runs,
             "steps_under_miri": steps,
             "fault_sweep_cells_under_miri": sweep_cells,
-            "segments": segments.iter().map(|s| json!({"world": s.world, "from": s.from, "to": s.to, "sweep": s.sweep, "stride": s.stride, "offset": s.offset})).collect::<Vec<_>>(),
+            "segments": segments.iter().map(|s| json!({"world": s.world, "from": s.from, "to": s.to, "sweep": s.sweep, "stride": s.stride, "offset": s.offset, "skips_N33_cells": s.light})).collect::<Vec<_>>(),
             "flags": "-Zmiri-ignore-leaks (isolation on)",
             "wall_s": t0.elapsed().as_secs_f64(),
             "ub_reports": res.found.iter().filter(|f| f.violation.class == "miri-undefined-behavior").count(),
